@@ -454,8 +454,19 @@ func (c *FnCtx) mergeNormal(outs []Out) []Out {
 		extras[i] = append([]*Term(nil), o.st.pc[n:]...)
 	}
 	def := func(i int, nt, v *Term) { extras[i] = append(extras[i], mkEq(nt, v)) }
-	// variables in scope in every path
-	for obj, v0 := range base.vars {
+	// variables in scope in every path (in a fixed order, so that the generated text is reproducible)
+	var objs []types.Object
+	for obj := range base.vars {
+		objs = append(objs, obj)
+	}
+	sort.Slice(objs, func(i, j int) bool {
+		if objs[i].Pos() != objs[j].Pos() {
+			return objs[i].Pos() < objs[j].Pos()
+		}
+		return objs[i].Name() < objs[j].Name()
+	})
+	for _, obj := range objs {
+		v0 := base.vars[obj]
 		same, all := true, true
 		for _, o := range normal[1:] {
 			v, ok := o.st.vars[obj]
@@ -508,7 +519,12 @@ func (c *FnCtx) mergeNormal(outs []Out) []Out {
 				names[k] = true
 			}
 		}
+		var sorted []string
 		for k := range names {
+			sorted = append(sorted, k)
+		}
+		sort.Strings(sorted)
+		for _, k := range sorted {
 			// a heap first touched on some paths only: the other paths still have its initial version (created lazily,
 			// one constant per function, recorded in the pre-state)
 			ver := func(s *State) *Term {
